@@ -149,8 +149,8 @@ MAYBE = {  # kind -> (constructor, teal op, immediates, arg types, value type, m
     "AssetBalance": (lambda acct, asset: pt.AssetHolding.balance(acct, asset), "asset_holding_get", ["AssetBalance"], [U, U], U, 2),
     "AssetTotal": (lambda asset: pt.AssetParam.total(asset), "asset_params_get", ["AssetTotal"], [U], U, 2),
     "AssetCreator": (lambda asset: pt.AssetParam.creator(asset), "asset_params_get", ["AssetCreator"], [U], B, 5),
-    "AcctBalance": (lambda a: pt.AcctParam.balance(a), "acct_params_get", ["AcctBalance"], [U], U, 6),
-    "AcctAuthAddr": (lambda a: pt.AcctParam.auth_addr(a), "acct_params_get", ["AcctAuthAddr"], [U], B, 6),
+    "AcctBalance": (lambda a: pt.AccountParam.balance(a), "acct_params_get", ["AcctBalance"], [U], U, 6),
+    "AcctAuthAddr": (lambda a: pt.AccountParam.authAddr(a), "acct_params_get", ["AcctAuthAddr"], [U], B, 6),
     "BoxGet": (lambda n: pt.App.box_get(n), "box_get", [], [B], B, 8),
     "BoxLen": (lambda n: pt.App.box_length(n), "box_len", [], [B], U, 8),
 }
